@@ -46,16 +46,21 @@ def threeEpochs (t : Toggles) (p : Program) (ws₁ : List Write) (r₁ : List Ke
     let _ ← session p ws₃
     round t p r₃) {})
 
-/-- the code as it is now with exactly the fix of F2 (531aeb1) switched off -/
-def beforeF2 : Toggles := { f2 := false }
+/-- … with the repair of F3/F31/F32 (1f41826: runs that end inside an SCC record no observations, carry
+    themselves in their firewall set and propagate like a firewall) switched off -/
+def beforeSccFix : Toggles := { f34 := false, f35 := false, f36 := false }
+
+/-- the code before 1f41826 with exactly the fix of F2 (531aeb1) switched off (after 1f41826 the missing
+    observation is noticed before `check_callee` is reached) -/
+def beforeF2 : Toggles := { beforeSccFix with f2 := false }
 /-- … with exactly the fix of F16 (3fbfd09) switched off -/
-def beforeF16 : Toggles := { f16 := false }
+def beforeF16 : Toggles := { beforeSccFix with f16 := false }
 /-- … with the fixes of F16 and of F33 (4685b5a: visited set) switched off: the hang of F16 needs the
     walk of `check_cyclic_internal` that has no visited set -/
-def beforeF16F33 : Toggles := { f16 := false, f33 := false }
+def beforeF16F33 : Toggles := { beforeSccFix with f16 := false, f33 := false }
 /-- … with exactly the first part of the fix of F1 (2abe9f6: clean edges above unsettled firewalls are
     not trusted) switched off -/
-def beforeF1 : Toggles := { f1p := false }
+def beforeF1 : Toggles := { beforeSccFix with f1p := false }
 
 def input : NodeDef := { kind := .input, dflt := 0, prog := .ret 0 }
 
@@ -81,12 +86,16 @@ def pF3 : Program :=
     { kind := .normal, dflt := -1, prog := .ask 0 fun x => if x = 1 then .ask 2 .ret else .ret (-1) },
     { kind := .normal, dflt := -1, prog := .ask 1 fun a => .ret (a + 21) } ]
 
-/-- F3: `B` keeps its cycle default `-1`; from scratch `B = 20`. -/
+/-- F3 (HISTORICAL, before 1f41826): `B` keeps its cycle default `-1`; from scratch `B = 20`. -/
 theorem cycle_incremental_asis_fails_F3 :
-    twoEpochs {} pF3 [.set 0 1] [2] [.set 0 3] [2] = .vals [-1] := by decide +kernel
+    twoEpochs beforeSccFix pF3 [.set 0 1] [2] [.set 0 3] [2] = .vals [-1] := by decide +kernel
 
 theorem cycle_incremental_repaired_F3 :
-    twoEpochs { f3 := true } pF3 [.set 0 1] [2] [.set 0 3] [2] = .vals [20] := by decide +kernel
+    twoEpochs { beforeSccFix with f3 := true } pF3 [.set 0 1] [2] [.set 0 3] [2] = .vals [20] := by decide +kernel
+
+/-- the code now (1f41826) -/
+theorem cycle_incremental_fixed_F3 :
+    twoEpochs {} pF3 [.set 0 1] [2] [.set 0 3] [2] = .vals [20] := by decide +kernel
 
 /-- corpus/engine-cyclic/F16-value.txt: `A = if X = 1 then B else -1`, `B = A + 1`; the edit
     `X := 1` CREATES the cycle `B → A → B` while `B` is being repaired. -/
@@ -149,19 +158,23 @@ def pF31 : Program :=
     { kind := .normal, dflt := -1, prog := .ask 0 fun x => if x = 2 then .ask 3 .ret else .ret 4 },
     { kind := .normal, dflt := -1, prog := .ask 1 fun a => if a = 1 then .ret 0 else .ask 2 .ret } ]
 
-/-- F31: `N3` keeps the default `-1`; from scratch `N3 = 4`. -/
+/-- F31 (HISTORICAL, before 1f41826): `N3` keeps the default `-1`; from scratch `N3 = 4`. -/
 theorem cycle_incremental_asis_fails_F31 :
-    threeEpochs {} pF31 [.set 0 3] [3] [.set 0 2] [3] [.set 0 3] [3] = .vals [-1] := by decide +kernel
+    threeEpochs beforeSccFix pF31 [.set 0 3] [3] [.set 0 2] [3] [.set 0 3] [3] = .vals [-1] := by decide +kernel
 
 /-- F3 repaired (with F2, F16 fixed) is not enough for this history … -/
 theorem cycle_incremental_F31_needs_its_own_repair :
-    threeEpochs { f3 := true } pF31 [.set 0 3] [3] [.set 0 2] [3] [.set 0 3] [3]
+    threeEpochs { beforeSccFix with f3 := true } pF31 [.set 0 3] [3] [.set 0 2] [3] [.set 0 3] [3]
       = .vals [-1] := by decide +kernel
 
 /-- … with F31 repaired as well the model returns the from-scratch value. -/
 theorem cycle_incremental_repaired_F31 :
-    threeEpochs { f3 := true, f31 := true } pF31 [.set 0 3] [3] [.set 0 2] [3] [.set 0 3] [3]
+    threeEpochs { beforeSccFix with f3 := true, f31 := true } pF31 [.set 0 3] [3] [.set 0 2] [3] [.set 0 3] [3]
       = .vals [4] := by decide +kernel
+
+/-- the code now (1f41826) -/
+theorem cycle_incremental_fixed_F31 :
+    threeEpochs {} pF31 [.set 0 3] [3] [.set 0 2] [3] [.set 0 3] [3] = .vals [4] := by decide +kernel
 
 /-- corpus/engine-cyclic/F32-after-f1-fix.txt: firewall `F = N`, `N = F`, `A = F`.  `A` is requested
     (cycle `F ↔ N`: both defaulted, `A = −2`), then an EMPTY session, then `N` is requested: from
@@ -172,11 +185,11 @@ def pF32b : Program :=
     { kind := .normal, dflt := -1, prog := .ask 1 .ret },
     { kind := .normal, dflt := -1, prog := .ask 1 .ret } ]
 
-/-- F32 as the code is now: `N`'s clean edge to the firewall `F` is not trusted (2abe9f6), `F` is
+/-- F32 (HISTORICAL, the code between 2abe9f6 and 1f41826): `N`'s clean edge to the firewall `F` is not trusted (2abe9f6), `F` is
     repaired through `N`'s own computing lock, the cycle is detected, `N` is re-run alone and reads
     `F`'s stale default: `N = −2`, not marked — although nothing changed. -/
 theorem cycle_incremental_asis_fails_F32 :
-    twoEpochs {} pF32b [] [3] [] [2] = .vals [-2] := by decide +kernel
+    twoEpochs beforeSccFix pF32b [] [3] [] [2] = .vals [-2] := by decide +kernel
 
 /-- the trigger is the distrust of clean edges: without it `N` is simply verified (`−1`) -/
 theorem cycle_incremental_F32_trigger :
@@ -184,6 +197,10 @@ theorem cycle_incremental_F32_trigger :
 
 /-- candidate repair (members of a former cycle are never cleaned, F3/F31 repaired) -/
 theorem cycle_incremental_repaired_F32 :
-    twoEpochs { f3 := true, f31 := true, f32 := true } pF32b [] [3] [] [2] = .vals [-1] := by decide +kernel
+    twoEpochs { beforeSccFix with f3 := true, f31 := true, f32 := true } pF32b [] [3] [] [2] = .vals [-1] := by decide +kernel
+
+/-- the code now (1f41826) -/
+theorem cycle_incremental_fixed_F32 :
+    twoEpochs {} pF32b [] [3] [] [2] = .vals [-1] := by decide +kernel
 
 end Qbice.Engine.C06
